@@ -2,6 +2,7 @@ import Goflow
 import Goflow.Gen.C05
 import Goflow.Gen.C03
 import Goflow.Gen.C04
+import Goflow.Gen.C07
 import Goflow.Gen.Malformed
 /-!
   goflow-model: the executable side of the model.
@@ -12,6 +13,9 @@ open Goflow
 
 structure DState where
   stores : List (String × Netflow.Store) := []
+  cfgs : List (String × Producer.Config) := []
+  pipes : List (String × Pipe.Kind × String) := []
+  pstate : List (String × Pipe.State) := []
 
 def DState.store (st : DState) (sid : String) : Netflow.Store := (st.stores.lookup sid).getD []
 def DState.setStore (st : DState) (sid : String) (s : Netflow.Store) : DState :=
@@ -59,7 +63,27 @@ def execOp (st : DState) (line : String) : DState × Option (List String) :=
   | "#" :: _ => (st, none)
   | "expect" :: _ => (st, none)
   | "call" :: args => let (s, o) := execCall st args; (s, some o)
-  | ["reset"] => ({}, some ["res ok"])
+  | ["reset"] => ({ cfgs := st.cfgs }, some ["res ok"])
+  | ["cfg", cid, "none"] => ({ st with cfgs := (cid, ({} : Producer.Config)) :: st.cfgs.filter (fun e => e.1 != cid) }, some ["res ok"])
+  | ["pipe", pid, kind, cid] =>
+    let k : Option Pipe.Kind := match kind with
+      | "netflow" => some .netflow | "sflow" => some .sflow | "flow" => some .auto | _ => none
+    match k with
+    | none => (st, some ["bad-op"])
+    | some k => ({ st with pipes := (pid, k, cid) :: st.pipes.filter (fun e => e.1 != pid),
+                           pstate := (pid, ({} : Pipe.State)) :: st.pstate.filter (fun e => e.1 != pid) }, some ["res ok"])
+  | ["pkt", pid, iphex, port, recv, hex] =>
+    match st.pipes.lookup pid, parseHex iphex, parseHex hex with
+    | some (k, cid), some ip, some d =>
+      let cfg := (st.cfgs.lookup cid).getD {}
+      let ps := (st.pstate.lookup pid).getD {}
+      let o := Pipe.decodeFlow k cfg ps ⟨ip, port.toNat!⟩ recv.toNat! d
+      let st' := { st with pstate := (pid, o.state) :: st.pstate.filter (fun e => e.1 != pid) }
+      let r := match o.err with
+        | none => "res ok"
+        | some e => resLine e
+      (st', some ((r ++ " n=" ++ toString o.msgs.length) :: o.msgs.map FlowMsg.dump))
+    | _, _, _ => (st, some ["bad-op"])
   | _ => (st, some ["bad-op"])
 
 partial def loop (h : IO.FS.Stream) (out : IO.FS.Stream) (st : DState) : IO Unit := do
@@ -79,6 +103,7 @@ def genOps (prop : String) (seed n : Nat) : List String :=
   | "C05" => Gen.run seed (Gen.C05.gen n)
   | "C03" => Gen.run seed (Gen.C03.gen n)
   | "C04" => Gen.run seed (Gen.C04.gen n)
+  | "C07" => Gen.run seed (Gen.C07.gen n)
   | _ => []
 
 def main (args : List String) : IO UInt32 := do
